@@ -234,6 +234,12 @@ func (s *State) move(target string) (node string, ok bool, lateral bool) {
 	if s.App.Node(target) == nil {
 		return "", false, false
 	}
+	if len(s.Path) > 0 && s.top() == target {
+		// a move to the node that is already current is refused (reachable from well-formed code through
+		// the instructions a matched INCMP line leaves behind)
+		s.Stats["move_to_current_node"]++
+		return "", false, false
+	}
 	s.Path = append(s.Path, target)
 	s.Levels = append(s.Levels, map[string]*Sym{})
 	s.Idx = 0
